@@ -310,7 +310,7 @@ impl Property for C17 {
             Family::enumerated("var-limit", var_cases(tier)),
             Family::enumerated("depth-limit", depth_cases(tier)),
             Family::enumerated("flat-length", flat_cases(tier)),
-            Family::random("depth-mixed", tier.n(6_000, 20_000), fam_mixed),
+            Family::random("depth-mixed", tier.n(6_000, 60_000), fam_mixed),
         ]
     }
     /// the same boundary documents through the svgdx command, the limits given by its options
